@@ -42,10 +42,16 @@ class Tdmd(ApiImmut):
             return
         okm, why = tt_consistent(modes) if _is_tt(modes) else (False, 'not a TT')
         c.check(self.api, 'modes_are_a_consistent_tt', okm, ['why=' + why.split(' (')[0][:40]] if not okm else [], {'why': why}, prop=P)
-        if not (v['ortho_l'] is True and v['ortho_r'] is True):
-            return
         if not (tt_consistent(x)[0] and tt_consistent(y)[0]) or int(np.prod(x.row_dims)) > 2 ** 14:
             return
+        if not (v['ortho_l'] is True and v['ortho_r'] is True):
+            # switching the sweeps off is only meaningful on input that already is in that gauge (measured)
+            from .contracts_tt import _gram_err_left, _gram_err_right
+            okl = v['ortho_l'] is True or all(_gram_err_left(cr) <= 1e-10 for cr in x.cores[:x.order - 2])
+            okr = v['ortho_r'] is True or _gram_err_right(x.cores[-1]) <= 1e-10
+            if not (okl and okr):
+                c.skip('tdmd_flags_off_on_non_orthonormal_input')
+                return
         m = x.row_dims[-1]
         X = dense_cores(x.cores).reshape(-1, m)
         Y = dense_cores(y.cores).reshape(-1, y.row_dims[-1])
@@ -91,7 +97,7 @@ class Tdmd(ApiImmut):
             R = At @ Wl - Wl @ np.diag(lam_a)
             err = float(np.max(np.abs(R))) / (max(float(np.max(np.abs(Wl))), 1e-300) * max(float(np.linalg.norm(At, 2)), 1e-300))
             c.check(self.api, 'standard_modes_are_projected_dmd_modes', inr <= 1e-8 and err <= 1e-7 * max(1.0, condW) * max(1.0, cond * 1e-2), tags, {'out_of_range': inr, 'rel_residual': err}, prop=P)
-        c.sig(self.api, list(x.row_dims), list(x.ranks), tags)
+        c.sig(self.api, list(x.row_dims), list(x.ranks), tags, bool(v['ortho_l'] is True), bool(v['ortho_r'] is True))
 
 
 def install():
